@@ -7,6 +7,7 @@ import (
 	"math/big"
 	"sort"
 	"strconv"
+	"sync"
 
 	"github.com/0chain/common/core/currency"
 
@@ -161,6 +162,7 @@ func fAlphabet(u []uint64) []float64 {
 func bigU(v uint64) *big.Int { return new(big.Int).SetUint64(v) }
 
 type c18 struct {
+	mu    sync.Mutex
 	rep   *rt.Report
 	evals int
 	byFn  map[string]int
@@ -168,6 +170,8 @@ type c18 struct {
 }
 
 func (c *c18) fail(fn, args, msg string) {
+	c.mu.Lock()
+	defer c.mu.Unlock()
 	key := fn + ":" + msg[:min(len(msg), 30)]
 	if c.seen[key] {
 		c.rep.Add("violations_suppressed_duplicates", 1)
@@ -179,8 +183,10 @@ func (c *c18) fail(fn, args, msg string) {
 
 // call runs f and converts a panic into a failure.
 func (c *c18) call(fn, args string, f func() string) {
+	c.mu.Lock()
 	c.evals++
 	c.byFn[fn]++
+	c.mu.Unlock()
 	defer func() {
 		if r := recover(); r != nil {
 			c.fail(fn, args, fmt.Sprintf("panic: %v", r))
@@ -272,7 +278,65 @@ func C18(tier rt.Tier) int {
 	I := iAlphabet(U)
 	F := fAlphabet(U)
 	type C = currency.Coin
+	// the helpers are pure functions: the enumeration is spread over workers that call them
+	// concurrently (a helper that keeps hidden shared state would also have to survive that)
+	work := make(chan uint64, len(U))
 	for _, a := range U {
+		work <- a
+	}
+	close(work)
+	var wg sync.WaitGroup
+	for w := 0; w < rt.Workers(); w++ {
+		wg.Add(1)
+		go func() {
+			defer wg.Done()
+			for a := range work {
+				c.perOperand(a, U, I, F)
+			}
+		}()
+	}
+	wg.Wait()
+	c.rest(tier, U, I, F)
+	// AUXILIARY (sampling, not part of the enumeration's verdict space): the single-argument helpers are
+	// also hammered from all workers at once with rotated argument order; a pure function must give the
+	// same answers then. This is the only part of C18 whose power depends on luck.
+	passes := 30
+	if tier == rt.Thorough {
+		passes = 300
+	}
+	var wg2 sync.WaitGroup
+	for w := 0; w < rt.Workers(); w++ {
+		wg2.Add(1)
+		go func(w int) {
+			defer wg2.Done()
+			for p := 0; p < passes; p++ {
+				for i := range F {
+					f := F[(i*7+w*131+p)%len(F)]
+					g, err := func() (g currency.Coin, err error) {
+						defer func() {
+							if r := recover(); r != nil {
+								err = fmt.Errorf("panic: %v", r)
+							}
+						}()
+						return currency.ParseZCN(f)
+					}()
+					want, ok := parseWant(f)
+					if (ok && (err != nil || uint64(g) != want)) || (!ok && err == nil) {
+						c.fail("ParseZCN (called concurrently)", fmt.Sprintf("%v(bits %#x)", f, math.Float64bits(f)), fmt.Sprintf("returned %d, %v; sequentially the answer is %d, ok=%v", uint64(g), err, want, ok))
+						return
+					}
+				}
+			}
+		}(w)
+	}
+	wg2.Wait()
+	rep.Set("auxiliary_concurrent_calls", passes*len(F)*rt.Workers())
+	return rep.Finish()
+}
+
+func (c *c18) perOperand(a uint64, U []uint64, I []int64, F []float64) {
+	type C = currency.Coin
+	{
 		for _, b := range U {
 			args := fmt.Sprintf("%d, %d", a, b)
 			c.call("AddCoin", args, func() string {
@@ -381,6 +445,11 @@ func C18(tier rt.Tier) int {
 			return ""
 		})
 	}
+}
+
+func (c *c18) rest(tier rt.Tier, U []uint64, I []int64, F []float64) {
+	type C = currency.Coin
+	rep := c.rep
 	for _, s := range I {
 		c.call("Int64ToCoin", fmt.Sprint(s), func() string {
 			g, err := currency.Int64ToCoin(s)
@@ -432,5 +501,4 @@ func C18(tier rt.Tier) int {
 	rep.Sample(map[string]any{"helper": "MultCoin", "args": []uint64{U[len(U)/2], U[len(U)/3]}})
 	rep.Sample(map[string]any{"helper": "ParseZCN", "arg": F[len(F)/2]})
 	rep.Assumption("for a negative int64 argument either an error or the exact result is accepted (the property text leaves it open); -0.0 is accepted either way; Coin.Float64 is judged as IEEE conversion")
-	return rep.Finish()
 }
